@@ -12,8 +12,8 @@ ORACLE_CLASS = {
     'intrinsic-padding': 'c12-intrinsic-padding', 'nulless-furibug': 'c12-nulless-furibug', 'mask-overflow': 'c12-mask-overflow',
 }
 # switches of the generated table: (Coq term, violation class when false, what, repro input of findings/repro).
-# The first five were defects of the original tree, repaired in /repo (known_findings.d/C12.json: fixed); a switch that goes
-# back to false is a regression and a violation.  The last one (mask overflow) is still open.
+# All six were defects of the original tree, repaired in /repo (known_findings.d/C12.json: fixed); a switch that goes back
+# to false is a regression and a violation.
 FLAGS = [
     ('all_checked gen_codec', 'c12-narrowing',
      'an integer argument that does not fit its 1- or 2-byte field (or the 16-bit timeline arg0) is stored truncated (`as _` in encode_args): '
@@ -32,7 +32,7 @@ FLAGS = [
      'attached (or not at all): side condition of C12_parsed_signature_is_covered', None),
     ('cd_mask_overflow_checked gen_codec', 'c12-mask-overflow',
      'a register argument beyond the 16th parameter is stored as an immediate without a diagnostic (the too-many-arguments check of encode_args '
-     'can never fire); theorem C12_param_mask_overflow_refuted', None),
+     'can never fire): switch cd_mask_overflow_checked of the generated table', None),
 ]
 
 def eval_with_retry(prop, imports, case_type, cases, shard):
